@@ -3,19 +3,26 @@ import ScyllaVerif.Model.Prepared
 # C14 — prepared statements survive server-side eviction transparently and faithfully
 
 Theorems about `Model/Prepared.lean` (a small-step transition system: any number of callers, nodes and statement
-objects; a history is any list of `Step`s, so every statement below that quantifies over a state `st` holds at
-every point of every interleaving of executions, batches, preparations and node events).
+objects; a history is any list of `Step`s).
 
-Part A — the DRIVER, for every state and every response (nothing is assumed about the server):
-  `unprepared_transparent`, `reprepare_id_mismatch_is_error`, `execute_carries_statement_id`,
+Part A — the DRIVER's reaction to each response, for every state. Nothing is assumed about WHICH response a node
+  gives; two wire-level conventions of the model's `Resp` type are side conditions: `Resp.error c` stands for an
+  ERROR other than 0x2500 (0x2500 is `Resp.unprepared`), and a `newId` / `mid` is only present on a connection with
+  the extension (result.rs:767, 820 mask the flag otherwise: `metaUsed`/`rowsMalformed` take `ext`).
+  `unprepared_transparent` (single steps), `reprepare_id_mismatch_is_error`, `execute_carries_statement_id`,
   `batch_unknown_id_is_error`, `batch_known_id_reprepares_and_resends`, `decode_metadata_used`,
-  `request_built_from_current_metadata`, `next_execution_presents_latest_id`, `nonempty_never_replaced_by_empty`,
-  plus the frame lemmas that lift them to arbitrary interleavings (`other_steps_keep_caller`,
-  `statement_identity_immutable`).
+  `malformed_rows_is_error`, `exec_error_or_void_is_outcome`, `reprepare_unexpected_result_is_error`,
+  `request_built_from_current_metadata`, `next_execution_presents_latest_id`, `nonempty_never_replaced_by_empty`;
+  lifted to arbitrary interleavings by `caller_untouched_by_others`, `others_frame`, `statement_identity_immutable`.
 Part B — END TO END under the explicit server assumption `NodeOK`/`EventOK` (a node's result-metadata id determines
-  its columns, ids are non-empty, and `serve` is how a node answers): invariant `Inv` over all histories,
-  `decode_metadata_faithful` (whenever a node with the extension omits the metadata, the metadata cached for that
-  request equals the columns the node encodes the rows under), `noext_current_is_announced_at_preparation`.
+  its columns, ids are non-empty, no byzantine answer pending, and `serve` is how a node answers): invariant `Inv`
+  over all histories (`inv_exec`), `decode_metadata_faithful`, and the history-level `eviction_transparent`
+  (UNPREPARED in flight ⇒ through ANY interleaving with other callers' steps: PREPARE, PREPARED, the same EXECUTE,
+  and the caller ends with the rows the node encoded, decoded under the node's columns);
+  `noext_current_is_announced_at_preparation` for clusters without the extension.
+F-C14-1 — the clause "decoded with the most recently announced metadata" is FALSE without the extension when
+  `use_cached_result_metadata` is on: `most_recent_announcement_not_used_without_extension` (counterexample) and
+  the `decode_latest_announcement_partial_*` theorems (extension on / option off / nothing changed since creation).
 -/
 namespace ScyllaVerif.Props.C14
 open ScyllaVerif.Prepared
@@ -1159,6 +1166,319 @@ theorem decode_metadata_faithful_all_histories (xs : List Step) (st0 : State) (h
       metaUsed true cached rr = c :=
   decode_metadata_faithful colsOf (exec st0 xs) (inv_exec colsOf xs st0 h0 hev) k op cached n r rr hpc hw hext hserve hnm
 
+/-! ### the history-level statement: an eviction is transparent -/
+
+/-- every step of `ys` is a step of a caller other than `k` (in particular: no node event) -/
+def Others (k : Nat) (ys : List Step) : Prop := ∀ y ∈ ys, ∃ j, stepCaller y = some j ∧ j ≠ k
+
+/-- `caller_untouched_by_others`: the lift of `other_steps_keep_caller` to any number of interleaved steps. -/
+theorem caller_untouched_by_others (ys : List Step) (st : State) (k : Nat)
+    (h : ∀ y ∈ ys, stepCaller y ≠ some k) : (exec st ys).caller k = st.caller k := by
+  induction ys generalizing st with
+  | nil => rfl
+  | cons y ys ih =>
+    simp only [exec]
+    rw [ih _ (fun z hz => h z (by simp [hz]))]
+    exact other_steps_keep_caller st y k (h y (by simp))
+
+private theorem serve_prepared_mono (n : Node) (r : Req) (id : SId) (h : n.prepared.contains id = true) :
+    (serve n r).1.prepared.contains id = true := by
+  cases r <;> simp only [serve] <;> (repeat' split) <;> simp_all
+
+/-- what the steps of callers (no node events) leave alone on every node, and on the statement objects -/
+structure Frame (a b : State) : Prop where
+  nodeSt : ∀ n, (b.node n).st = (a.node n).st
+  nodeExt : ∀ n, (b.node n).ext = (a.node n).ext
+  nodeOv : ∀ n, (a.node n).ov = none → (b.node n).ov = none
+  prepared : ∀ n id, (a.node n).prepared.contains id = true → (b.node n).prepared.contains id = true
+  ident : ∀ o, o < a.nObjs → (b.objs o).id = (a.objs o).id ∧ (b.objs o).text = (a.objs o).text
+  nObjs : a.nObjs ≤ b.nObjs
+
+theorem Frame.refl (a : State) : Frame a a :=
+  ⟨fun _ => rfl, fun _ => rfl, fun _ h => h, fun _ _ h => h, fun _ _ => ⟨rfl, rfl⟩, Nat.le_refl _⟩
+
+theorem Frame.trans {a b c : State} (h1 : Frame a b) (h2 : Frame b c) : Frame a c :=
+  ⟨fun n => (h2.nodeSt n).trans (h1.nodeSt n), fun n => (h2.nodeExt n).trans (h1.nodeExt n),
+   fun n h => h2.nodeOv n (h1.nodeOv n h), fun n id h => h2.prepared n id (h1.prepared n id h),
+   fun o ho => ⟨((h2.ident o (Nat.lt_of_lt_of_le ho h1.nObjs)).1).trans (h1.ident o ho).1,
+                ((h2.ident o (Nat.lt_of_lt_of_le ho h1.nObjs)).2).trans (h1.ident o ho).2⟩,
+   Nat.le_trans h1.nObjs h2.nObjs⟩
+
+theorem frame_step (st : State) (y : Step) (h : ∃ j, stepCaller y = some j) : Frame st (step st y).1 := by
+  have hid : ∀ o, o < st.nObjs → ((step st y).1.objs o).id = (st.objs o).id ∧ ((step st y).1.objs o).text = (st.objs o).text :=
+    fun o ho => ⟨(statement_identity_immutable_step st y o ho).1, (statement_identity_immutable_step st y o ho).2.1⟩
+  have hn : st.nObjs ≤ (step st y).1.nObjs := by
+    by_cases h0 : 0 < st.nObjs
+    · exact (statement_identity_immutable_step st y 0 h0).2.2.2
+    · have : st.nObjs = 0 := by omega
+      omega
+  cases y with
+  | event n e => obtain ⟨j, hj⟩ := h; simp [stepCaller] at hj
+  | start k op =>
+    have hnode : (step st (.start k op)).1.node = st.node := start_node st k op
+    exact ⟨fun n => by rw [hnode], fun n => by rw [hnode], fun n h => by rw [hnode]; exact h,
+      fun n id h => by rw [hnode]; exact h, hid, hn⟩
+  | recv k =>
+    have hnode : (step st (.recv k)).1.node = st.node := recv_node st k
+    exact ⟨fun n => by rw [hnode], fun n => by rw [hnode], fun n h => by rw [hnode]; exact h,
+      fun n id h => by rw [hnode]; exact h, hid, hn⟩
+  | serve k =>
+    have hnode : ∀ n, (step st (.serve k)).1.node n = st.node n ∨
+        ∃ r, (step st (.serve k)).1.node n = (serve (st.node n) r).1 := by
+      intro n
+      simp only [step, serveStep]
+      split
+      · rename_i n0 r _
+        simp only [upd]
+        split
+        · rename_i e; subst e; exact Or.inr ⟨r, rfl⟩
+        · exact Or.inl rfl
+      · exact Or.inl rfl
+    refine ⟨fun n => ?_, fun n => ?_, fun n h => ?_, fun n id h => ?_, hid, hn⟩
+    · rcases hnode n with e | ⟨r, e⟩ <;> rw [e]; exact serve_st _ _
+    · rcases hnode n with e | ⟨r, e⟩ <;> rw [e]; exact serve_ext _ _
+    · rcases hnode n with e | ⟨r, e⟩ <;> rw [e]
+      · exact h
+      · exact serve_ov _ _ h
+    · rcases hnode n with e | ⟨r, e⟩ <;> rw [e]
+      · exact h
+      · exact serve_prepared_mono _ _ _ h
+
+theorem others_frame (ys : List Step) (st : State) (k : Nat) (h : Others k ys) : Frame st (exec st ys) := by
+  induction ys generalizing st with
+  | nil => exact Frame.refl st
+  | cons y ys ih =>
+    simp only [exec]
+    obtain ⟨j, hj, _⟩ := h y (by simp)
+    exact (frame_step st y ⟨j, hj⟩).trans (ih _ (fun z hz => h z (by simp [hz])))
+
+theorem others_eventsOK (ys : List Step) (k : Nat) (h : Others k ys) : EventsOK colsOf ys := by
+  induction ys with
+  | nil => trivial
+  | cons y ys ih =>
+    have ih' := ih (fun z hz => h z (by simp [hz]))
+    obtain ⟨j, hj, _⟩ := h y (by simp)
+    cases y with
+    | event n e => simp [stepCaller] at hj
+    | start _ _ => exact ih'
+    | serve _ => exact ih'
+    | recv _ => exact ih'
+
+theorem others_caller (ys : List Step) (st : State) (k : Nat) (h : Others k ys) :
+    (exec st ys).caller k = st.caller k :=
+  caller_untouched_by_others ys st k (fun y hy => by
+    obtain ⟨j, hj, hne⟩ := h y hy
+    rw [hj]; simp; exact hne)
+
+/-- the typed rows a node's response carries (what `genRows` encodes) -/
+def typedRow : List Col → Nat → Nat → Nat → List Val
+  | [], _, _, _ => []
+  | c :: cs, v, row, j =>
+    (match c.ty with
+     | .int => Val.int (v * 100 + row * 10 + j)
+     | .text => Val.text (hexOfString s!"s{v}r{row}c{j}")) :: typedRow cs v row (j + 1)
+
+def typedRows (cols : List Col) (v : Nat) (pageSize : Option Nat) (ps : Option String) : List (List Val) :=
+  match pageSize with
+  | none => [typedRow cols v 0 0, typedRow cols v 1 0]
+  | some _ => [typedRow cols v (pageOf ps) 0]
+
+private theorem decodeRow_rowCells (cols : List Col) (v row j : Nat) (rest : List Cell) :
+    decodeRow cols (rowCells cols v row j ++ rest) = some (typedRow cols v row j, rest) := by
+  induction cols generalizing j with
+  | nil => simp [rowCells, decodeRow, typedRow]
+  | cons c cs ih =>
+    cases hty : c.ty <;> simp [rowCells, decodeRow, typedRow, hty, decodeCell, ih]
+
+/-- round trip: the rows a node encodes under `cols` decode under `cols` to the typed rows (for every column list,
+value, page) -/
+theorem decodeRows_genRows (cols : List Col) (v : Nat) (pageSize : Option Nat) (ps : Option String) :
+    decodeRows cols (genRows cols v pageSize ps).1.count (genRows cols v pageSize ps).1.cells
+      = some (typedRows cols v pageSize ps) := by
+  cases pageSize with
+  | none =>
+    simp only [genRows, typedRows, decodeRows]
+    rw [decodeRow_rowCells cols v 0 0]
+    have := decodeRow_rowCells cols v 1 0 []
+    simp only [List.append_nil] at this
+    simp [this, decodeRows]
+  | some p =>
+    simp only [genRows, typedRows, decodeRows]
+    have := decodeRow_rowCells cols v (pageOf ps) 0 []
+    simp only [List.append_nil] at this
+    simp [this, decodeRows]
+
+private theorem stmtOfText_textOf : ∀ s, s < 8 → stmtOfText (textOf s) = some s := by decide +kernel
+
+/-- `eviction_transparent` (history level). Let a caller `k` have an EXECUTE answered UNPREPARED (response in
+flight) by a node WITH the extension, in a state satisfying `Inv`; the statement is one the node can prepare
+(`prepFail = false`, no byzantine answer pending) and its id is the one the node assigns (no id change). Then for
+ANY steps `ys0 … ys4` of OTHER callers (their requests, the nodes' answers to them, their response handling —
+including executions and re-preparations of the SAME statement object) interleaved between this caller's own five
+steps `recv · serve · recv · serve · recv`:
+  (1) the node sees PREPARE of the statement's text;
+  (2) it answers PREPARED with the same id;
+  (3) the node then sees an EXECUTE that agrees with the first one in id, complete value list, consistency, serial
+      consistency, timestamp, page size and paging state (`op` is what `request_built_from_current_metadata` built
+      the first frame from);
+  (4) the caller ends with `.done (.rows m decoded more)`: the NORMAL result — `m.cols` are the columns the node
+      holds, `decoded` are exactly the typed rows the node encoded (`typedRows`), `more` its paging state — and is
+      idle again. -/
+theorem eviction_transparent (st0 : State) (hinv : Inv colsOf st0) (k : Nat) (op : ExecOp) (cached : Option RMeta)
+    (uid : SId) (s : Nat)
+    (hc : st0.caller k = ⟨.exec1 op cached, .resp (.unprepared uid)⟩)
+    (hobj : op.obj < st0.nObjs) (hs : s < 8) (htext : (st0.objs op.obj).text = textOf s)
+    (hid : (st0.objs op.obj).id = idOf s (((st0.node op.node).st s).idv))
+    (hext : (st0.node op.node).ext = true) (hpf : ((st0.node op.node).st s).prepFail = false)
+    (ys0 ys1 ys2 ys3 ys4 : List Step)
+    (h0 : Others k ys0) (h1 : Others k ys1) (h2 : Others k ys2) (h3 : Others k ys3) (h4 : Others k ys4) :
+    let a := exec st0 ys0
+    let b := recv a k
+    let c := exec b.1 ys1
+    let d := serveStep c k
+    let e := exec d.1 ys2
+    let f := recv e k
+    let g := exec f.1 ys3
+    let h := serveStep g k
+    let i := exec h.1 ys4
+    let j := recv i k
+    let cols := ((st0.node op.node).st s).smeta.cols
+    b.2 = .sent op.node (.prepare (textOf s)) ∧
+    (∃ p, d.2 = .served (.prepared p) ∧ p.id = (st0.objs op.obj).id) ∧
+    (∃ rq, f.2 = .sent op.node (.execute rq) ∧ rq.id = (st0.objs op.obj).id ∧ rq.values = op.values ∧
+        rq.cl = op.cl ∧ rq.scl = op.scl ∧ rq.ts = op.ts ∧ rq.pageSize = op.pageSize ∧ rq.ps = op.ps) ∧
+    (∃ m more, j.2 = .done (.rows m (some (typedRows cols (op.values.headD 0) op.pageSize op.ps)) more) ∧
+        m.cols = cols) ∧
+    j.1.caller k = ⟨.idle, .none⟩ := by
+  intro a b c d e f g h i j cols
+  -- state a
+  have fa : Frame st0 a := others_frame ys0 st0 k h0
+  have inva : Inv colsOf a := inv_exec colsOf ys0 st0 hinv (others_eventsOK colsOf ys0 k h0)
+  have hca : a.caller k = ⟨.exec1 op cached, .resp (.unprepared uid)⟩ := by
+    rw [show a = exec st0 ys0 from rfl, others_caller ys0 st0 k h0]; exact hc
+  have hta : (a.objs op.obj).text = textOf s := ((fa.ident _ hobj).2).trans htext
+  -- step b: PREPARE is sent
+  have hb : b = (setCaller a k ⟨.execPrep op, .req op.node (.prepare (textOf s))⟩, .sent op.node (.prepare (textOf s))) := by
+    rw [show b = recv a k from rfl, exec_unprepared_sends_prepare a k op cached uid hca, hta]
+  have fb : Frame st0 b.1 := by
+    rw [hb]; exact ⟨fa.nodeSt, fa.nodeExt, fa.nodeOv, fa.prepared, fa.ident, fa.nObjs⟩
+  have invb : Inv colsOf b.1 := by
+    have := inv_step colsOf a (.recv k) inva (fun _ _ h => by cases h)
+    simpa [step] using this
+  have hcb : b.1.caller k = ⟨.execPrep op, .req op.node (.prepare (textOf s))⟩ := by rw [hb]; simp [setCaller]
+  -- state c
+  have fc : Frame st0 c := fb.trans (others_frame ys1 b.1 k h1)
+  have invc : Inv colsOf c := inv_exec colsOf ys1 b.1 invb (others_eventsOK colsOf ys1 k h1)
+  have hcc : c.caller k = ⟨.execPrep op, .req op.node (.prepare (textOf s))⟩ := by
+    rw [show c = exec b.1 ys1 from rfl, others_caller ys1 b.1 k h1]; exact hcb
+  -- step d: the node prepares
+  have hovc : (c.node op.node).ov = none := fc.nodeOv _ (hinv.1 op.node).1
+  have hstc : (c.node op.node).st = (st0.node op.node).st := fc.nodeSt _
+  have hextc : (c.node op.node).ext = true := (fc.nodeExt _).trans hext
+  have hserve_c := serve_plain_prepare (c.node op.node) (textOf s) s hovc (stmtOfText_textOf s hs)
+    (by rw [hstc]; exact hpf)
+  have hd : d = ({ c with node := upd c.node op.node (serve (c.node op.node) (.prepare (textOf s))).1,
+                          caller := upd c.caller k { c.caller k with wire := .resp (serve (c.node op.node) (.prepare (textOf s))).2 } },
+                 .served (serve (c.node op.node) (.prepare (textOf s))).2) := by
+    simp [show d = serveStep c k from rfl, serveStep, hcc]
+  let pid : SId := idOf s ((c.node op.node).st s).idv
+  have hpid : pid = (st0.objs op.obj).id := by rw [hid, ← hstc]
+  have fd : Frame c d.1 := by
+    have := frame_step c (.serve k) ⟨k, rfl⟩
+    simpa [step] using this
+  have invd : Inv colsOf d.1 := by
+    have := inv_step colsOf c (.serve k) invc (fun _ _ h => by cases h)
+    simpa [step] using this
+  have hcd : ∃ p, d.1.caller k = ⟨.execPrep op, .resp (.prepared p)⟩ ∧ d.2 = .served (.prepared p) ∧ p.id = pid := by
+    rw [hd, hserve_c]
+    exact ⟨_, by simp [hcc], rfl, rfl⟩
+  have hprepd : (d.1.node op.node).prepared.contains pid = true := by
+    rw [hd, hserve_c]; simp [pid]
+  obtain ⟨p, hcdp, hd2, hpidp⟩ := hcd
+  -- state e
+  have fe0 : Frame d.1 e := others_frame ys2 d.1 k h2
+  have fe : Frame st0 e := (fc.trans fd).trans fe0
+  have inve : Inv colsOf e := inv_exec colsOf ys2 d.1 invd (others_eventsOK colsOf ys2 k h2)
+  have hce : e.caller k = ⟨.execPrep op, .resp (.prepared p)⟩ := by
+    rw [show e = exec d.1 ys2 from rfl, others_caller ys2 d.1 k h2]; exact hcdp
+  have hide : p.id = (e.objs op.obj).id := by rw [hpidp, hpid, (fe.ident _ hobj).1]
+  -- step f: the EXECUTE is sent again
+  obtain ⟨cur', _, hf⟩ := exec_reprepared_resends e k op p hce hide
+  simp only at hf
+  have hf' : f = _ := hf
+  have ff : Frame e f.1 := by
+    have := frame_step e (.recv k) ⟨k, rfl⟩
+    simpa [step] using this
+  have invf : Inv colsOf f.1 := by
+    have := inv_step colsOf e (.recv k) inve (fun _ _ h => by cases h)
+    simpa [step] using this
+  let cp := cachedParams (e.node op.node).ext op.useCached cur'
+  let rq := execFrame (e.objs op.obj) op cp
+  have hcf : f.1.caller k = ⟨.exec2 op cp.cached, .req op.node (.execute rq)⟩ := by rw [hf']; simp [setCaller, cp, rq]
+  have hf2 : f.2 = .sent op.node (.execute rq) := by rw [hf']
+  have hrqid : rq.id = (st0.objs op.obj).id := (fe.ident _ hobj).1
+  -- state g
+  have fg0 : Frame f.1 g := others_frame ys3 f.1 k h3
+  have invg : Inv colsOf g := inv_exec colsOf ys3 f.1 invf (others_eventsOK colsOf ys3 k h3)
+  have hcg : g.caller k = ⟨.exec2 op cp.cached, .req op.node (.execute rq)⟩ := by
+    rw [show g = exec f.1 ys3 from rfl, others_caller ys3 f.1 k h3]; exact hcf
+  have fdg : Frame d.1 g := (fe0.trans ff).trans fg0
+  have fg : Frame st0 g := (fc.trans fd).trans fdg
+  have hovg : (g.node op.node).ov = none := fg.nodeOv _ (hinv.1 op.node).1
+  have hstg : (g.node op.node).st = (st0.node op.node).st := fg.nodeSt _
+  have hextg : (g.node op.node).ext = true := (fg.nodeExt _).trans hext
+  have hprepg : (g.node op.node).prepared.contains rq.id = true := by
+    rw [hrqid, ← hpid]; exact fdg.prepared _ _ hprepd
+  have hlook : lookupId rq.id (g.node op.node).prepared = some s := by
+    have hst : rq.id.stmt = s := by rw [hrqid, hid]; rfl
+    simp only [lookupId, hprepg, ↓reduceIte, hst]
+  -- step h: the node answers with rows
+  have hserve_g := serve_plain_execute (g.node op.node) rq hovg
+  rw [hlook] at hserve_g
+  simp only [hstg] at hserve_g
+  have hh : h = ({ g with node := upd g.node op.node (serve (g.node op.node) (.execute rq)).1,
+                          caller := upd g.caller k { g.caller k with wire := .resp (serve (g.node op.node) (.execute rq)).2 } },
+                 .served (serve (g.node op.node) (.execute rq)).2) := by
+    simp [show h = serveStep g k from rfl, serveStep, hcg]
+  have hrows : ∃ rr, (serve (g.node op.node) (.execute rq)).2 = .rows rr ∧
+      rr.rows = (genRows cols (rq.values.headD 0) rq.pageSize rq.ps).1 ∧
+      (metaUsed true cp.cached rr).cols = cols ∧ rowsMalformed true rr = false := by
+    by_cases hch : ((g.node op.node).ext && rq.mid != some ((st0.node op.node).st s).smeta.mid) = true
+    · rw [hserve_g]; simp only [hch, ↓reduceIte]
+      exact ⟨_, rfl, rfl, by simp [metaUsed, cols], by simp [rowsMalformed]⟩
+    · by_cases hsk : rq.skip = true
+      · have hs2 : (serve (g.node op.node) (.execute rq)).2 = .rows ⟨true, none, cols.length, [],
+            (genRows cols (rq.values.headD 0) rq.pageSize rq.ps).2, (genRows cols (rq.values.headD 0) rq.pageSize rq.ps).1⟩ := by
+          rw [hserve_g]; simp only [hch, hsk, ↓reduceIte]; rfl
+        obtain ⟨s', c', hl', hc', hcols', _, hmu'⟩ := decode_metadata_faithful colsOf g invg k op cp.cached op.node rq _
+          (Or.inr (by rw [hcg])) (by rw [hcg]) hextg hs2 rfl
+        rw [hlook] at hl'
+        simp only [Option.some.injEq] at hl'
+        subst hl'
+        refine ⟨_, hs2, rfl, ?_, by simp [rowsMalformed, newIdSeen]⟩
+        rw [hmu', hcols', hstg]
+      · rw [hserve_g]; simp only [hch, hsk, ↓reduceIte]
+        exact ⟨_, rfl, rfl, by simp [metaUsed, cols], by simp [rowsMalformed, newIdSeen]⟩
+  obtain ⟨rr, hrr, hrrows, hmcols, hwf⟩ := hrows
+  have hch2 : h.1.caller k = ⟨.exec2 op cp.cached, .resp (.rows rr)⟩ := by rw [hh, ← hrr]; simp [hcg]
+  have fh : Frame g h.1 := by
+    have := frame_step g (.serve k) ⟨k, rfl⟩
+    simpa [step] using this
+  -- state i, step j
+  have hci : i.caller k = ⟨.exec2 op cp.cached, .resp (.rows rr)⟩ := by
+    rw [show i = exec h.1 ys4 from rfl, others_caller ys4 h.1 k h4]; exact hch2
+  have fi : Frame st0 i := (fg.trans fh).trans (others_frame ys4 h.1 k h4)
+  have hexti : (i.node op.node).ext = true := (fi.nodeExt _).trans hext
+  have hj := exec_final_response_is_outcome i k op cp.cached (.rows rr) hci
+  rw [hexti] at hj
+  refine ⟨by rw [hb], ⟨p, hd2, by rw [hpidp, hpid]⟩, ⟨rq, hf2, hrqid, rfl, rfl, rfl, rfl, rfl, rfl⟩, ?_, ?_⟩
+  · refine ⟨metaUsed true cp.cached rr, rr.more, ?_, hmcols⟩
+    rw [show j = recv i k from rfl, hj]
+    simp only [execOutcome, hwf, Bool.false_eq_true, ↓reduceIte, hmcols, hrrows]
+    rw [decodeRows_genRows]
+    rfl
+  · rw [show j = recv i k from rfl, hj]; simp [setCaller]
+
 end EndToEnd
 
 /-! ## Part B.2 — a cluster without the extension: the current metadata is the one announced at preparation -/
@@ -1422,5 +1742,90 @@ example : (run (exState true) exHistory).2.drop 8 =
      .done (.rows ⟨some "m3", 2, [⟨"a", .int⟩, ⟨"b", .text⟩]⟩
        (some [[.int 800, .text "733872306331"], [.int 810, .text "733872316331"]]) none)] := by
   decide +kernel
+
+/-- `eviction_transparent` is not vacuous: the state of `exHistory` in which the UNPREPARED answer is in flight
+satisfies all its hypotheses. -/
+example :
+    let st := exec (exState true) (exHistory.take 10)
+    Inv exCols st ∧
+    st.caller 0 = ⟨.exec1 ⟨0, 0, false, 6, some 8, some 42, none, none, [8, 9]⟩ (some ⟨some "m1", 1, [⟨"a", .int⟩]⟩),
+                   .resp (.unprepared ⟨0, 0⟩)⟩ ∧
+    (0 : Nat) < st.nObjs ∧ (st.objs 0).text = textOf 0 ∧ (st.objs 0).id = idOf 0 (((st.node 0).st 0).idv) ∧
+    (st.node 0).ext = true ∧ ((st.node 0).st 0).prepFail = false :=
+  ⟨inv_exec exCols _ _ exState_inv (by simp [exHistory, EventsOK, EventOK, exCols]),
+   by decide +kernel, by decide +kernel, by decide +kernel, by decide +kernel, by decide +kernel, by decide +kernel⟩
+
+/-! ## F-C14-1: what is FALSE of the current code, and the part that holds
+
+FULL STATEMENT (property text: "… or, when the server omitted it as requested, with the metadata the server most
+recently announced for that statement (at preparation, or later together with a new metadata id)"), for every history
+with and without the extension and the skip-metadata option:
+
+    rows a node sends WITHOUT metadata are decoded with the metadata most recently announced to this client for that
+    statement object - by the creating PREPARED, by a METADATA_CHANGED response, or by a re-PREPARED response.
+
+It is false on a connection WITHOUT the extension when `use_cached_result_metadata` is on: connection.rs:715-717
+(`id().is_none()` → return) discards what a re-PREPARE announces (`reprepare_noext_keeps`). Witness: one consistent
+node, ALTER, eviction, execute (known finding F-C14-1; the harness replays it against the real driver,
+corpus/C14/scenarios.case). -/
+
+def f1History : List Step :=
+  [.start 0 (.prepare 0 0), .serve 0, .recv 0,
+   .event 0 (.schemaChange 0 ⟨"m3", [⟨"a", .int⟩, ⟨"b", .text⟩]⟩), .event 0 (.evict 0),
+   .start 0 (.execute ⟨0, 0, true, 6, none, none, none, none, [5]⟩), .serve 0, .recv 0, .serve 0, .recv 0,
+   .serve 0, .recv 0]
+
+/-- the negation of the full statement on a concrete history: the re-PREPARED response announces `a:int, b:text`,
+the rows are then sent without metadata in that layout, and the caller's result is decoded with `a:int` (the typed
+decode fails: `none`) -/
+theorem most_recent_announcement_not_used_without_extension :
+    (run (exState false) f1History).2.drop 7 =
+      [.sent 0 (.prepare "q0"),
+       .served (.prepared ⟨⟨0, 0⟩, none, false, 2, [⟨"a", .int⟩, ⟨"b", .text⟩]⟩),
+       .sent 0 (.execute ⟨⟨0, 0⟩, none, true, [5], 6, none, none, none, none⟩),
+       .served (.rows ⟨true, none, 2, [], none, ⟨2, [.int 500, .text "s5r0c1", .int 510, .text "s5r1c1"]⟩⟩),
+       .done (.rows ⟨none, 1, [⟨"a", .int⟩]⟩ none none)] := by
+  decide +kernel
+
+/-- `…_partial`, case "extension negotiated": `decode_metadata_faithful` (whatever the option says). -/
+theorem decode_latest_announcement_partial_ext (colsOf : Id → List Col) (st : State) (hinv : Inv colsOf st) (k : Nat)
+    (op : ExecOp) (cached : Option RMeta) (n : Nat) (r : ExecReq) (rr : RowsResp)
+    (hpc : (st.caller k).pc = .exec1 op cached ∨ (st.caller k).pc = .exec2 op cached)
+    (hw : (st.caller k).wire = .req n (.execute r)) (hext : (st.node n).ext = true)
+    (hserve : (serve (st.node n) (.execute r)).2 = .rows rr) (hnm : rr.noMeta = true) :
+    ∃ s c, lookupId r.id (st.node n).prepared = some s ∧ cached = some c ∧ c.cols = ((st.node n).st s).smeta.cols :=
+  let ⟨s, c, h1, h2, h3, _⟩ := decode_metadata_faithful colsOf st hinv k op cached n r rr hpc hw hext hserve hnm
+  ⟨s, c, h1, h2, h3⟩
+
+/-- `…_partial`, case "no extension, option off": the request never asks to skip the metadata, nothing cached is
+used, and the node sends its current columns along. -/
+theorem decode_latest_announcement_partial_option_off (m : RMeta) (n : Node) (r : ExecReq) (s : Nat)
+    (hext : n.ext = false) (hov : n.ov = none) (hl : lookupId r.id n.prepared = some s)
+    (hskip : r.skip = (cachedParams false false m).skip) :
+    (cachedParams false false m).cached = none ∧
+    ∃ rr, (serve n (.execute r)).2 = .rows rr ∧ rr.noMeta = false ∧ rr.cols = (n.st s).smeta.cols := by
+  have hs : (cachedParams false false m).skip = false := by
+    by_cases h0 : m.colCount = 0
+    · rw [cachedParams_zero_cols _ _ _ h0]
+    · rw [cachedParams_noext _ _ h0]
+  have hc : (cachedParams false false m).cached = none := by rw [cachedParams_cached, hs]; rfl
+  refine ⟨hc, ?_⟩
+  rw [serve_plain_execute n r hov, hl]
+  simp [hext, hskip, hs]
+
+/-- `…_partial`, case "no extension anywhere, option on": the request is built with the metadata announced by the
+PREPARED that created the statement object - faithful exactly as long as the result metadata has not changed since. -/
+theorem decode_latest_announcement_partial_noext_unchanged (st : State) (hinv : NoExtInv st) (k : Nat)
+    (a : ExecArgs) (o : Nat) (hidle : st.caller k = ⟨.idle, .none⟩) (hslot : st.slot a.slot = some o) :
+    ∃ op cached, ((start st k (.execute a)).1.caller k).pc = .exec1 op cached ∧ op.obj = o ∧
+      ∀ c, cached = some c → c = (st.objs o).initial := by
+  rw [request_built_from_current_metadata st k a o hidle hslot]
+  refine ⟨⟨o, a.node, a.useCached, a.cl, a.scl, (drawTs st a.node a.ts).1, a.pageSize, a.ps, a.values⟩,
+    (cachedParams (st.node a.node).ext a.useCached (st.objs o).cur).cached, by simp [setCaller], rfl, ?_⟩
+  intro c hc
+  rw [cachedParams_cached] at hc
+  split at hc
+  · simp only [Option.some.injEq] at hc; rw [← hc]; exact (hinv.2.1 o).1
+  · simp at hc
 
 end ScyllaVerif.Props.C14
